@@ -130,11 +130,28 @@ def cap_weight(t, limit=48):
                 find(c)
         find(t)
         n = widest[1]
-        if n is None or len(n) <= 3:
-            # only binary nodes left: replace the last child of the root-most one by a leaf
+        if n is None:
             break
+        if len(n) <= 3:
+            # only binary AC nodes left: replace one of them by its first child
+            t = _collapse_one_ac(t)[0]
+            continue
         del n[-1]
     return t
+
+
+def _collapse_one_ac(t):
+    """(tree with the last AC node in pre-order replaced by its first child, done?)"""
+    ch = T.children(t)
+    for i in reversed(range(len(ch))):
+        new, done = _collapse_one_ac(ch[i])
+        if done:
+            ch = list(ch)
+            ch[i] = new
+            return T.rebuild(t, ch), True
+    if t[0] in ("sum", "prod"):
+        return t[1], True
+    return t, False
 
 
 @st.composite
@@ -159,6 +176,10 @@ def constructed(draw):
     for f in free_funcs:
         theta[f] = ["var", draw(st.sampled_from(TARGET_FUNCS))]
     target = T.substitute(tpl, theta)
+    if ac_weight(target) > 1000:
+        # substituting sums into sums widened the AC nodes too much: bind to leaves instead
+        theta = {v: (e[1] if e[0] in ("sum", "prod") else e) for v, e in theta.items()}
+        target = T.substitute(tpl, theta)
     if identity_used:
         target = simplify_identities(target)
     before = canon(target)
@@ -166,7 +187,8 @@ def constructed(draw):
         target = permute(target, draw)
     permuted = canon(target) != before
     mode = draw(st.sampled_from(["explicit", "explicit", "default", "default_bound"]))
-    case = {"kind": "constructed", "template": tpl, "target": target, "permuted": permuted}
+    case = {"kind": "constructed", "template": tpl, "target": target, "permuted": permuted,
+            "kw_reverse_template": draw(st.booleans()), "kw_reverse_target": draw(st.booleans())}
     if mode == "explicit":
         case["free"] = sorted(free + free_funcs)
     elif mode == "default_bound":
@@ -188,7 +210,8 @@ def constructed(draw):
 def random_pair(draw):
     tpl = cap_weight(draw(st.integers(0, 2).flatmap(template)))
     tgt = cap_weight(draw(st.one_of(st.integers(0, 2).flatmap(template), small_target())))
-    case = {"kind": "random", "template": tpl, "target": tgt, "permuted": False}
+    case = {"kind": "random", "template": tpl, "target": tgt, "permuted": False,
+            "kw_reverse_template": draw(st.booleans()), "kw_reverse_target": draw(st.booleans())}
     if draw(st.booleans()):
         names = sorted(T.variables(tpl, include_functions=True))
         case["free"] = sorted(draw(st.lists(st.sampled_from(names), unique=True))) if names else []
@@ -206,7 +229,13 @@ def run_match(case):
         kwargs["pre_match"] = {n: T.to_pymbolic(v) for n, v in case["pre_match"].items()}
     with warnings.catch_warnings():
         warnings.simplefilter("ignore")
-        return match(T.to_pymbolic(case["template"]), T.to_pymbolic(case["target"]), **kwargs)
+        # keyword arguments of the two sides written in name order or reversed, independently
+        T.set_kw_order(case.get("kw_reverse_template", False))
+        tpl = T.to_pymbolic(case["template"])
+        T.set_kw_order(case.get("kw_reverse_target", False))
+        tgt = T.to_pymbolic(case["target"])
+        T.set_kw_order(False)
+        return match(tpl, tgt, **kwargs)
 
 
 def check_case(case):
